@@ -25,6 +25,7 @@ import (
 	"github.com/containers/nri-plugins/pkg/agent"
 	cfgapi "github.com/containers/nri-plugins/pkg/apis/config/v1alpha1"
 	"github.com/containers/nri-plugins/pkg/resmgr/cache"
+	cpucontrol "github.com/containers/nri-plugins/pkg/resmgr/control/cpu"
 	policyapi "github.com/containers/nri-plugins/pkg/resmgr/policy"
 	"github.com/containers/nri-plugins/pkg/sysfs"
 	"github.com/containers/nri-plugins/pkg/utils/cpuset"
@@ -149,6 +150,7 @@ type fsOut struct {
 	Bln    interface{}   `json:"bln,omitempty"`
 	Zones  []fsZone      `json:"zones"`
 	Saved  int           `json:"saved"`
+	Classes map[string][]int `json:"cpuclasses,omitempty"`
 	Calls  [][]string    `json:"calls"`
 }
 
@@ -420,6 +422,7 @@ func (inst *fsInstance) snapshot(out *fsOut) {
 	}
 	sort.Strings(out.Pods)
 	if inst.policy == "balloons" {
+		out.Classes = cpucontrol.VerifClassAssignments(m.cache)
 		out.Bln = blnpolicy.VerifSnapshot(inst.backend)
 	} else {
 		out.TA = tapolicy.VerifSnapshot(inst.backend)
